@@ -52,7 +52,7 @@ def alphabet(tier):
         qs.append(("list_prefix", p, True))
     for r in ["a.*", "A", "a_", "a%", "[", ".*", "(?i)a$"]:
         qs.append(("list_regex", r))
-    for tags in [("t",), ("T",), ("t", "T"), ("t", "t"), ("%",), ("",), ("zz",), ("t", "zz"), ()]:
+    for tags in [("t",), ("T",), ("t", "T"), ("t", "t"), ("%",), ("",), ("zz",), ("t", "zz"), (), ("r|w",), ("a,b", "t")]:
         for rm in (True, False):
             qs.append(("yp_all", tags, rm, "list"))
             qs.append(("yp_any", tags, rm, "list"))
